@@ -47,6 +47,13 @@ theorem base_eq_gcc (vals : List Int) (b : Base) :
     · rintro rfl; rfl
     · intro h; cases b' <;> cases b <;> first | rfl | (exact absurd h (by decide))
 
+/-- The candidate selection and range tests translated from `EnumType.build_baseinttype` on this
+run, with `sizeof(int) = 4`, `sizeof(long) = 8`, are the closed form `base_eq_gcc` reasons about:
+signed candidates iff the smallest value is negative, `[-2^(8s-1), 2^(8s-sign))` per candidate. -/
+theorem gen_build_baseinttype_is_modelled (lo hi : Int) :
+    baseOfRange lo hi = baseOfRangeSpec lo hi :=
+  baseOfRange_def lo hi
+
 /-- **Rejection.**  cffi refuses the value list ("values don't all fit into either 'long' or
 'unsigned long'", a `CDefError`) exactly when gcc has no integer type for it. -/
 theorem rejected_iff_gcc_rejects (vals : List Int) :
@@ -57,7 +64,8 @@ theorem rejected_iff_gcc_rejects (vals : List Int) :
   | ok b => simp
   | error e =>
     have : e = .cdef := by
-      unfold baseOfRange at hb
+      rw [baseOfRange_def] at hb
+      unfold baseOfRangeSpec at hb
       repeat' split at hb
       all_goals cases hb
       all_goals rfl
